@@ -29,16 +29,16 @@ BOUND = 300
 
 def plan(tier, seed):
     sh = []
-    L = 4 if tier == "quick" else 6
+    L = 5 if tier == "quick" else 6
     firsts = list(range(8))
     for a in firsts:
         sh.append({"kind": "streams", "first": a, "L": L})
     sh.append({"kind": "dtlists", "n": 600 if tier == "quick" else 6000})
     for p in range(8):
-        sh.append({"kind": "qgroups", "lo": 8192 * p, "hi": 8192 * (p + 1), "stride": 1 if tier == "thorough" else 4})
+        sh.append({"kind": "qgroups", "lo": 8192 * p, "hi": 8192 * (p + 1), "stride": 1})
     np_ = 4 if tier == "quick" else 16
     for p in range(np_):
-        sh.append({"kind": "setgroups", "part": p, "of": np_, "random": 300 if tier == "quick" else 4000,
+        sh.append({"kind": "setgroups", "part": p, "of": np_, "random": 1000 if tier == "quick" else 4000,
                    "structured": tier == "thorough"})
     return sh
 
